@@ -233,6 +233,7 @@ type Violation struct {
 	Decisions []int32         `json:"decisions"`
 	Observes  []string        `json:"observes,omitempty"`
 	Known     string          `json:"known,omitempty"`
+	Standing  bool            `json:"-"` // a check that is always made natively (race replay); silent when it passes
 }
 
 type ReplayDraw struct {
